@@ -12,7 +12,7 @@ from sandbox import Sandbox
 import impl
 
 VALID_NAME = ["%Upper{%Name()}", "%Count(start=1,width=3)_%Name()", "%Name()|%Lower()", "%Trim(3,left){%Base()}%Ext()",
-              "%Text.Replace('a','b'){%Name()}", "x_%Base()%Ext()", "%Lower{%Base()}|%Upper()%Ext()", "%Pad(8,'0'){%Base()}%Ext()",
+              "%Text.Replace('a','b'){%Name()}", "x_%Base()%Ext()", "%Lower{%Base()}|%Upper()", "%Pad(8,'0',left){%Base()}%Ext()",
               "%Core.Name()", "pre\\{%Name()\\}", "%Collapse(' _'){%Name()}", "%Dir()/%Name()", "%Strip('x'){%Name()}|%Capitalize()"]
 VALID_FILTER = ["%Size() > 0", "len(%Name()) > 2", "%Name() != 'zz'", "%Ext() == '.txt'", "%Size() >= 0 and %Base().startswith('a')"]
 VALID_SORT = ["%Size(), %Name()", "%Name()", "len(%Name())", "%Ext(), %Size()", "%Lower{%Name()}"]
@@ -94,6 +94,10 @@ def run_case(chk, rng, case, stats, coq_cases, metas, compiler):
         return
     if case.get("expect") is not None and res.status != case["expect"]:
         chk.oracle_fail("an expression that cannot be evaluated for a selected file, but exit status %r instead of %r" % (res.status, case["expect"]), c)
+        return
+    if case.get("mutated") == "none" and res.status in (3, 4):
+        chk.oracle_fail("valid, unmutated templates whose expressions evaluate for every file were rejected with status %d: %s" % (
+            res.status, res.stderr.strip()[-200:]), c)
         return
     name_ok, name_err = compiles(case["template"], compiler)
     filt_ok = compiles(case["filter"], compiler)[0] if case.get("filter") is not None else None
@@ -319,6 +323,11 @@ FIXED = [
     {"mode": "name", "template": "x%Name()", "filter": "%Name() +", "mutated": "evaluation", "expect": 4},
     {"mode": "name", "template": "x%Name()", "filter": "%Name() == 'a.txt' and undefined_name", "mutated": "evaluation (fails for one file only)", "expect": 4},
     {"mode": "directory", "template": "%Name()", "sort": "%Name()", "recursive": True, "mutated": "none"},
+    # sort keys that are equal for several files (ties are not an error)
+    {"mode": "name", "template": "x%Name()", "sort": "%Ext()", "mutated": "none"},
+    {"mode": "name", "template": "x%Name()", "sort": "1", "mutated": "none"},
+    {"mode": "path", "template": "t/%Name()", "sort": "len(%Name()), %Ext()", "recursive": True, "mutated": "none"},
+    {"mode": "name", "template": "x%Name()", "sort": "%Size() > 1", "filter": "%Size() >= 0", "mutated": "none"},
     {"mode": "name", "template": "%Name()", "sort": "%Name() if %Size()==1 else 5", "mutated": "mixed-type sort keys (F9, fixed)", "expect": 4},
     # a bare name that several categories provide is rejected wherever it stands — also after the qualified spelling was used
     {"mode": "name", "template": "%text.Title{%Base()}_%Title{%Base()}%Ext()", "mutated": "ambiguous after qualified", "expect": 3},
